@@ -412,3 +412,274 @@ Print Assumptions C01_data_roundtrip_lines.
 Print Assumptions C01_roundtrip_cell.
 Print Assumptions C01_write_data_lines.
 Print Assumptions C01_clean_is_dom2.
+
+(* ====================================================================================== *)
+(* FILE LEVEL (appended).  Proofs in Proofs/FileRoundTrip*.v.                               *)
+(* ====================================================================================== *)
+(* The composition listed above as "not proved here" — that the reader cuts the ~A section at
+   exactly the written data lines and derives the column count, WRAP and NULL from the written
+   header — is proved here on Model/Read.v read applied to the text Model/Writer.v write
+   returns.  Notation as in Props/C03.v (file-level part): hs is the written form of the header
+   (hs_las hs = the file in memory after the call), dl the line that opens the data section,
+   nt the NULL text, rts the printed rows.
+
+     C01_file_roundtrip   under header_hyps / text_hyps / wrap_ok (Props/C03.v:
+                          C03_file_hyps_unfold, C03_text_hyps_unfold, C03_wrap_ok_unfold), the
+                          hypotheses of C01_data_roundtrip on the token matrix of the rows of
+                          the file in memory (data_hyps: at least one curve and one row; every
+                          token wr_tok; spacers white space; separated) and data_text_hyps
+                          (spacers newline-free, no token contains '~'), with ignore_data off:
+                            read text = ROk l,
+                            the four header sections / ~Other / custom sections of l are as in
+                            C03_file_roundtrip (header_read_back),
+                            l_data l = data_result ro pn c T
+                                     = null_columns (nulleq pn) strict 0 (mk_num of column j of T)
+                          where c = number of curves of the file in memory, T = the written
+                          token matrix, pn = the NULL value the reader found (null_read: the
+                          value read back of the unique ~Well item of class NULL).  Both
+                          engines (the numpy engine when the options select it and WRAP is
+                          not YES), wrapped (any width, the reader reshapes by the number of
+                          curves because the sniffed count never exceeds it:
+                          C01_sniffed_count_bounded) or not;
+     C01_file_roundtrip_checked   the same with the hypotheses as one executable predicate;
+     C01_file_data_shape  the result has c columns, each with as many cells as rows written;
+                          column j is the NULL rule applied to the tokens of column j;
+     C01_file_index_kept  the index column is never nulled: column 0 = the written tokens;
+     C01_file_cell_num    a finite sample of a non-index curve comes back as the token
+                          fmt % x (or NaN when that token equals NULL: C06);
+     C01_file_cell_nan    a NaN sample of a non-index curve comes back as NaN under
+                          null_policy strict, given the ORACLE hypothesis
+                          nulleq numeq pn nt = true (float(str(NULL)) == NULL as read back);
+     C01_rows_width       the rows the writer prints have one cell per curve.
+   Curves: same number, same order, same metadata (header_read_back on ~Curves; the columns are
+   bound one to one: bind_columns with as many columns as curves changes nothing).
+   Still not proved: null policies other than strict/none, DLM other than SPACE, files whose
+   curves have unequal lengths (the writer then prints no data). *)
+Require Import Num Tables SectionParse Sections Read ReadCongr ReadInvProofs SectionsProofs BlocksCongr
+  WriteOptionsProofs WriteHeaderProofs WriteReadProofs ItemsBindProofs
+  FileRoundTripText FileRoundTripBlocks FileRoundTripFind FileRoundTripFirstPass FileRoundTripHeader
+  FileRoundTripData FileRoundTripLines FileRoundTrip FileRoundTripMain FileRoundTripCheck.
+Local Open Scope N_scope.
+
+Theorem C01_file_roundtrip : forall fmtv fmt_diff fmt_pi fstr fzero numeq fhex ro o m text m' hs dl rts vit nt,
+  write fmtv fmt_diff fmt_pi fstr fzero numeq o m = WOk text m' ->
+  write_sections fmtv fmt_diff fstr fzero numeq (wo_version o) (wo_wrap o) (col_fmt o 0%nat) m = Some hs ->
+  dsh_of fmtv fmt_pi fstr o hs = Some dl ->
+  las_null_text fstr (hs_las hs) = Some nt ->
+  opt_all (map (row_text fmtv fmt_pi o (Some nt) 0%nat) (las_rows (hs_las hs))) = Some rts ->
+  header_hyps fstr ro hs vit -> text_hyps o hs -> wrap_ok fstr (o_mcase ro) hs ->
+  let c := List.length (s_items (l_curves (hs_las hs))) in
+  data_hyps fmtv fmt_pi fhex o nt (las_rows (hs_las hs)) c ->
+  data_text_hyps fmtv o nt (las_rows (hs_las hs)) ->
+  o_ignore_data ro = false ->
+  exists l pn,
+    read fhex fstr numeq ro text = ROk l /\
+    header_read_back fstr ro hs l /\ null_read fstr ro hs pn /\
+    l_data l = data_result fhex numeq ro pn c (tok_matrix fmtv o nt (las_rows (hs_las hs))).
+Proof. exact read_written_file. Qed.
+
+Theorem C01_file_roundtrip_checked : forall fmtv fmt_diff fmt_pi fstr fzero numeq fhex ro o m text m' hs dl rts nt,
+  write fmtv fmt_diff fmt_pi fstr fzero numeq o m = WOk text m' ->
+  write_sections fmtv fmt_diff fstr fzero numeq (wo_version o) (wo_wrap o) (col_fmt o 0%nat) m = Some hs ->
+  dsh_of fmtv fmt_pi fstr o hs = Some dl ->
+  las_null_text fstr (hs_las hs) = Some nt ->
+  opt_all (map (row_text fmtv fmt_pi o (Some nt) 0%nat) (las_rows (hs_las hs))) = Some rts ->
+  file_hypsb fmtv fmt_pi fstr fhex ro o hs nt = true -> o_ignore_data ro = false ->
+  exists l pn,
+    read fhex fstr numeq ro text = ROk l /\
+    header_read_back fstr ro hs l /\ null_read fstr ro hs pn /\
+    l_data l = data_result fhex numeq ro pn (List.length (s_items (l_curves (hs_las hs))))
+                 (tok_matrix fmtv o nt (las_rows (hs_las hs))).
+Proof. exact read_written_file_checked. Qed.
+
+Theorem C01_data_hyps_unfold : forall fmtv fmt_pi fhex o nt rows c,
+  data_hyps fmtv fmt_pi fhex o nt rows c <->
+  ((0 < c)%nat /\ rows <> [] /\ Forall (fun row : list cell => List.length row = c) rows /\
+   Forall (Forall (wr_tok fhex)) (tok_matrix fmtv o nt rows) /\
+   forallb is_space (wo_lhs_spacer o) = true /\ forallb is_space (wo_spacer o) = true /\
+   Forall (separated fmt_pi o) (tok_matrix fmtv o nt rows)).
+Proof. reflexivity. Qed.
+
+Theorem C01_data_text_hyps_unfold : forall fmtv o nt rows,
+  data_text_hyps fmtv o nt rows <->
+  (in_str 10 (wo_lhs_spacer o) = false /\ in_str 10 (wo_spacer o) = false /\
+   Forall (Forall (fun t => in_str 126 t = false)) (tok_matrix fmtv o nt rows)).
+Proof. reflexivity. Qed.
+
+Theorem C01_data_result_unfold : forall fhex numeq ro pn c T,
+  data_result fhex numeq ro pn c T =
+  null_columns (nulleq numeq pn) (o_null_strict ro) 0%nat (map (map (mk_num fhex)) (transpose_n c T)).
+Proof. reflexivity. Qed.
+
+Theorem C01_rows_width : forall l,
+  Forall (fun row : list cell => List.length row = List.length (s_items (l_curves l))) (las_rows l).
+Proof. exact las_rows_width. Qed.
+
+(* the data section of the written file as read_one_data reads it *)
+Theorem C01_file_data_core_unwrapped : forall fmtv fmt_pi fhex fstr numeq ro pw pn o nt rows c rts cs wd,
+  data_hyps fmtv fmt_pi fhex o nt rows c ->
+  opt_all (map (row_text fmtv fmt_pi o (Some nt) 0%nat) rows) = Some rts ->
+  List.length (s_items cs) = c ->
+  exists eng,
+    data_core fhex fstr numeq ro pw pn DSpace (map add_nl rts) cs wd =
+    inl (cs, data_result fhex numeq ro pn c (tok_matrix fmtv o nt rows), eng).
+Proof. exact data_core_unwrapped. Qed.
+
+Theorem C01_file_data_core_wrapped : forall fmtv fmt_pi fhex fstr numeq ro pw pn o nt rows c rts cs w,
+  data_hyps fmtv fmt_pi fhex o nt rows c ->
+  opt_all (map (row_text fmtv fmt_pi o (Some nt) 0%nat) rows) = Some rts ->
+  List.length (s_items cs) = c ->
+  hval_is_str pw (s2l "YES") = true ->
+  data_core fhex fstr numeq ro pw pn DSpace (map add_nl (flat_map (TextWrap.wrap w) rts)) cs true =
+  inl (cs, data_result fhex numeq ro pn c (tok_matrix fmtv o nt rows), false).
+Proof. exact data_core_wrapped. Qed.
+
+(* the sniffed column count is one of the per-line counts, so it is bounded by their bound *)
+Theorem C01_sniffed_count_bounded : forall d body c,
+  (forall subs, Forall (fun raw => is_skip raw = true \/ (dcount d subs raw <= c)%nat) body) ->
+  forall subs n, fst (inspect_twice d body subs) = Some n -> (n <= c)%nat.
+Proof. exact inspect_twice_bound. Qed.
+
+Theorem C01_file_data_shape : forall fhex numeq ro pn c T,
+  List.length (data_result fhex numeq ro pn c T) = c /\
+  forall j, (j < c)%nat ->
+    List.length (nth j (data_result fhex numeq ro pn c T) []) = List.length T /\
+    nth j (data_result fhex numeq ro pn c T) [] =
+      null_column (nulleq numeq pn) (o_null_strict ro) j (map (fun toks => mk_num fhex (nth j toks [])) T).
+Proof. exact data_result_shape. Qed.
+
+Theorem C01_file_index_kept : forall fhex numeq ro pn c T, (0 < c)%nat ->
+  nth 0 (data_result fhex numeq ro pn c T) [] = map (fun toks => mk_num fhex (nth 0 toks [])) T.
+Proof. exact data_result_index. Qed.
+
+Theorem C01_file_cell_num : forall fmtv numeq fhex ro o pn c nt (rows : list (list cell)) i j row t,
+  (0 < j < c)%nat -> o_null_strict ro = true ->
+  nth_error rows i = Some row -> nth_error row j = Some (CNum t) ->
+  nth_error (nth j (data_result fhex numeq ro pn c (tok_matrix fmtv o nt rows)) []) i =
+  Some (match mk_num fhex (fmtv (col_fmt o j) t) with
+        | CNum t' => if nulleq numeq pn t' then CNaN else CNum t'
+        | x => x
+        end).
+Proof. exact file_num_roundtrip. Qed.
+
+Theorem C01_file_cell_nan : forall fmtv numeq fhex ro o pn c nt (rows : list (list cell)) i j row,
+  (0 < j < c)%nat -> o_null_strict ro = true ->
+  nth_error rows i = Some row -> nth_error row j = Some CNaN ->
+  nulleq numeq pn nt = true ->
+  nth_error (nth j (data_result fhex numeq ro pn c (tok_matrix fmtv o nt rows)) []) i = Some CNaN.
+Proof. exact file_nan_roundtrip. Qed.
+
+(* ---- non-vacuity: a four-curve file with NaN samples, unwrapped and wrapped at width 24 ------ *)
+Definition fy_fmt_diff (f a b : list N) : list N := a.
+Definition fy_fzero (t : list N) : bool := false.
+Definition fy_numeq (a b : list N) : bool := str_eqb a b.
+Definition fy_m : mlas :=
+  mkmlas (mklas (mksect [new_item (s2l "VERS") [] (VFloat (s2l "2.0")) (s2l "v"); new_item (s2l "WRAP") [] (VStr (s2l "NO")) [];
+                         new_item (s2l "DLM") [] (VStr (s2l "SPACE")) []] false)
+                (mksect [new_item (s2l "STRT") (s2l "M") (VFloat (s2l "100.5")) []; new_item (s2l "STOP") (s2l "M") (VFloat (s2l "101.0")) [];
+                         new_item (s2l "STEP") (s2l "M") (VFloat (s2l "0.5")) []; new_item (s2l "NULL") [] (VFloat (s2l "-999.25")) []] false)
+                (mksect [new_item (s2l "DEPT") (s2l "M") (VStr []) []; new_item (s2l "A") [] (VStr []) [];
+                         new_item (s2l "B") [] (VStr []) []; new_item (s2l "C") [] (VStr []) []] false)
+                (mksect [] false) [] []
+                [ [CNum (s2l "100.5"); CNum (s2l "101.0")]; [CNum (s2l "2.5"); CNaN]; [CNaN; CNum (s2l "-3")];
+                  [CNum (s2l "-1e-05"); CNum (s2l "12345.678")] ] true)
+         None.
+Definition fy_o (w : option bool) : wopts :=
+  mkwopts (Some W20) w [] [(1%nat, s2l "%.2f")] LAuto [] [32] 24 60 (s2l "~ASCII") false.
+Definition fy_ro (numpy : bool) : ropts := mkropts false CasePreserve numpy true false.
+Definition fy_write (w : option bool) := write ex_fmtv fy_fmt_diff ex_fmt_pi ex_fstr fy_fzero fy_numeq (fy_o w) fy_m.
+Definition fy_text (w : option bool) : list N := match fy_write w with WOk t _ => t | WErr _ => [] end.
+Definition fy_hs (w : option bool) : hdr_sections :=
+  match write_sections ex_fmtv fy_fmt_diff ex_fstr fy_fzero fy_numeq (Some W20) w (col_fmt (fy_o w) 0%nat) fy_m with
+  | Some hs => hs
+  | None => mkhs false V20 [] [] [] [] [] empty_las
+  end.
+Definition fy_dl (w : option bool) : list N :=
+  match dsh_of ex_fmtv ex_fmt_pi ex_fstr (fy_o w) (fy_hs w) with Some d => d | None => [] end.
+Definition fy_rts (w : option bool) : list (list N) :=
+  match opt_all (map (row_text ex_fmtv ex_fmt_pi (fy_o w) (Some ex_nt) 0%nat) (las_rows (hs_las (fy_hs w)))) with
+  | Some r => r | None => [] end.
+Definition fy_cols : list (list cell) :=
+  [ [CNum (s2l "100.5"); CNum (s2l "101.0")]; [CNum (s2l "2.50"); CNaN]; [CNaN; CNum (s2l "-3")];
+    [CNum (s2l "-1e-05"); CNum (s2l "12345.678")] ].
+
+Example C01_ex_file_text_wrapped :
+  l2s (fy_text (Some true)) =
+"~Version ---------------------------------------------------
+VERS.   2.0 : CWLS log ASCII Standard -VERSION 2.0
+WRAP.   YES : Multiple lines per depth step
+DLM . SPACE : 
+~Well ------------------------------------------------------
+STRT.M  100.5 : 
+STOP.M  101.0 : 
+STEP.M  101.0 : 
+NULL. -999.25 : 
+~Curve Information -----------------------------------------
+DEPT.M  : 
+A   .   : 
+B   .   : 
+C   .   : 
+~Params ----------------------------------------------------
+~Other -----------------------------------------------------
+~ASCII -----------------------------------------------------
+     100.5       2.50
+-999.25     -1e-05
+     101.0    -999.25
+-3  12345.678
+"%string.
+Proof. vm_compute. reflexivity. Qed.
+
+(* the hypotheses hold, wrapped or not *)
+Example C01_ex_file_domain : forall w numpy,
+  write_sections ex_fmtv fy_fmt_diff ex_fstr fy_fzero fy_numeq (wo_version (fy_o w)) (wo_wrap (fy_o w)) (col_fmt (fy_o w) 0%nat) fy_m
+    = Some (fy_hs w) /\
+  file_hypsb ex_fmtv ex_fmt_pi ex_fstr ex_fhex (fy_ro numpy) (fy_o w) (fy_hs w) ex_nt = true.
+Proof. intros [[|]|] [|]; split; vm_compute; reflexivity. Qed.
+
+(* read of the written text, computed: NaN restored through NULL, index column kept, "2.5"
+   printed with the column's own format; the numpy engine was used for the unwrapped text *)
+Example C01_ex_file_read :
+  map (fun w => match read ex_fhex ex_fstr fy_numeq (fy_ro true) (fy_text w) with
+                | ROk l => Some (l_data l, l_engine_numpy l) | RErr _ => None end)
+      [None; Some true]
+  = [Some (fy_cols, true); Some (fy_cols, false)].
+Proof. vm_compute. reflexivity. Qed.
+
+(* the theorem applied to it: every hypothesis discharged by computation *)
+Example C01_ex_file_theorem : forall w numpy,
+  exists l, read ex_fhex ex_fstr fy_numeq (fy_ro numpy) (fy_text w) = ROk l /\
+            header_read_back ex_fstr (fy_ro numpy) (fy_hs w) l /\ l_data l = fy_cols.
+Proof.
+  intros w numpy.
+  assert (Hw : write ex_fmtv fy_fmt_diff ex_fmt_pi ex_fstr fy_fzero fy_numeq (fy_o w) fy_m
+               = WOk (fy_text w) (mkmlas (hs_las (fy_hs w)) None))
+    by (destruct w as [[|]|]; vm_compute; reflexivity).
+  destruct (C01_ex_file_domain w numpy) as (Hs & Hb).
+  assert (Hdl : dsh_of ex_fmtv ex_fmt_pi ex_fstr (fy_o w) (fy_hs w) = Some (fy_dl w))
+    by (destruct w as [[|]|]; vm_compute; reflexivity).
+  assert (Hnt : las_null_text ex_fstr (hs_las (fy_hs w)) = Some ex_nt)
+    by (destruct w as [[|]|]; vm_compute; reflexivity).
+  assert (Hrts : opt_all (map (row_text ex_fmtv ex_fmt_pi (fy_o w) (Some ex_nt) 0%nat) (las_rows (hs_las (fy_hs w)))) = Some (fy_rts w))
+    by (destruct w as [[|]|]; vm_compute; reflexivity).
+  destruct (C01_file_roundtrip_checked ex_fmtv fy_fmt_diff ex_fmt_pi ex_fstr fy_fzero fy_numeq ex_fhex (fy_ro numpy) (fy_o w) fy_m
+              (fy_text w) (mkmlas (hs_las (fy_hs w)) None) (fy_hs w) (fy_dl w) (fy_rts w) ex_nt Hw Hs Hdl Hnt Hrts Hb eq_refl)
+    as (l & pn & Hread & Hrb & Hpn & Hdata).
+  exists l. split; [exact Hread|]. split; [exact Hrb|]. rewrite Hdata.
+  assert (Epn : pn = Some (VFloat (s2l "-999.25"))).
+  { revert Hpn. unfold null_read. destruct w as [[|]|]; vm_compute; intros E; exact E. }
+  rewrite Epn. destruct w as [[|]|]; vm_compute; reflexivity.
+Qed.
+
+Print Assumptions C01_file_roundtrip.
+Print Assumptions C01_file_roundtrip_checked.
+Print Assumptions C01_data_hyps_unfold.
+Print Assumptions C01_data_text_hyps_unfold.
+Print Assumptions C01_data_result_unfold.
+Print Assumptions C01_rows_width.
+Print Assumptions C01_file_data_core_unwrapped.
+Print Assumptions C01_file_data_core_wrapped.
+Print Assumptions C01_sniffed_count_bounded.
+Print Assumptions C01_file_data_shape.
+Print Assumptions C01_file_index_kept.
+Print Assumptions C01_file_cell_num.
+Print Assumptions C01_file_cell_nan.
